@@ -383,7 +383,11 @@ func (pc *parentController) updateParentObject(old, cur interface{}) {
 				// if ignoreStatusChanges is set to true in the composite controller, a parent object should only be
 				// enqueued if there is a change in the generation or if there is a change in its labels/annotations,
 				// or if there is a deletion timestamp attached to the object, otherwise it will be ignored.
-				if parentOld.GetGeneration() == parentCur.GetGeneration() {
+				// An event that carries the same object twice is not a change at all but a resync, or the
+				// replay of the cache to a handler that has just been added: it must get through, or a
+				// controller started on a warm informer would never see the parents that already exist.
+				if parentOld.GetGeneration() == parentCur.GetGeneration() &&
+					parentOld.GetResourceVersion() != parentCur.GetResourceVersion() {
 					if reflect.DeepEqual(parentOld.GetLabels(), parentCur.GetLabels()) &&
 						reflect.DeepEqual(parentOld.GetAnnotations(), parentCur.GetAnnotations()) &&
 						parentCur.GetDeletionTimestamp() == nil {
